@@ -19,6 +19,10 @@ CHECKS = {
          "Tie: the whole outcome × retry-state × recurrence × result × converter table is run on the real Worker (in-memory broker, virtual time, jobs concurrent in one worker) and every delivery's broker calls/stores/body/callbacks are compared with the model; the property is evaluated on the observation.",
          "in-memory broker; thread/process pools not exercised; one genuine defect (F8) repaired by fix: commit 4db1223.",
          "Lean 4 proof (case analysis, unbounded in retry counters) + exhaustive-table differential correspondence", "§5 C02"),
+ "C03": ("Lean (in-memory broker atoms): cancel_before_returns, cancel_after_disposed, stop_conserves_partial (a task cancelled at ANY point inside an ack/nack followed by the runner's reject leaves the message in exactly one place), finish_returns_all, return_time_bound (timer model), refutation requeue_window_witness. "
+         "Tie: crash-point enumeration on the real Worker: 7 phase scenarios × graceful ∈ {0, 2 ms, 25 s} × stop request (the really registered signal handler) delivered at every callback index near any delivery / broker call / actor boundary (all indices in thorough); final broker state judged per message (disposed by one completed call xor back once with unchanged counter; nothing in-flight; none-or-all for interrupted calls); return time bound.",
+         "in-memory broker; Redis crash recovery (maintenance) not yet modelled; process death and OS signal timing are runtime. PARTIAL: requeue window recorded as known finding F2.",
+         "Lean 4 proof + crash-point (fault) enumeration on the real worker", "§5 C03"),
  "C04": ("Lean: the FULL statement as one theorem (C04.chain_ok): for every N ≥ 0, every failure pattern, every retry policy, duration and latency profile, recurring or not, the chain of executions of one scheduling satisfies chainOk — counters 0,1,2…, at most N+1 executions, exactly N+1 then dead-lettered/rescheduled when all fail, a success ends the chain with ack, the k-th retry not before failure + policy(k); plus counter_step, counter_bounded, chain_length, success_ends. "
          "Tie: retry chains on the real Worker (all bitmasks for small N, exception/timeout, four policies, forced retries) — per-delivery comparison with the model and chainOk evaluated on the observed chain.",
          "in-memory broker (Redis/RabbitMQ back-off delivery: see C05).",
